@@ -26,6 +26,7 @@
 -/
 import SnowModel.Num
 import SnowModel.Simpson
+import SnowModel.SimpsonArr
 import SnowModel.EvapFormulas2D
 
 namespace Snow.S2D
@@ -102,9 +103,11 @@ variable {α : Type} [Num α]
   if i = 0 then Tb j else T (i - 1) j
 
 /-- One node of the cooling-stage update (all nine regions of l.1193-1295 are this
-formula with the ghost values substituted): `a = alpha*dt`. -/
+formula with the ghost values substituted): `a = alpha*dt`.  The trailing
+arguments are the literals `2` and `1`; the run passes pre-evaluated copies
+(`Ctx.l2`, `Ctx.l1`, equal by definition) so that they are not re-evaluated per node. -/
 @[inline] def coolNode (Nz Nr : Nat) (a dz dr : α) (r : Nat → α) (T : Nat → Nat → α)
-    (Tb Tt Te : Nat → α) (i j : Nat) : α :=
+    (Tb Tt Te : Nat → α) (i j : Nat) (two : α := ofNat' 2) (one : α := ofNat' 1) : α :=
   let c := T i j
   let o := outer Nr T Te i j
   let n := inner T i j
@@ -119,7 +122,8 @@ formula with the ghost values substituted): `a = alpha*dt`. -/
 /-- One node of the solidification-stage update (l.1493-1708); `k`, `cp`, `B` are
 the fields `k_eff`, `cp_eff`, `BETA` of the step. -/
 @[inline] def solidNode (Nz Nr : Nat) (dt rho dz dr : α) (r : Nat → α)
-    (k cp B : Nat → Nat → α) (T : Nat → Nat → α) (Tb Tt Te : Nat → α) (i j : Nat) : α :=
+    (k cp B : Nat → Nat → α) (T : Nat → Nat → α) (Tb Tt Te : Nat → α) (i j : Nat)
+    (two : α := ofNat' 2) (four : α := ofNat' 4) (one : α := ofNat' 1) : α :=
   let c := T i j
   let kc := k i j
   let o := outer Nr T Te i j
@@ -177,6 +181,64 @@ is computed from the old field. -/
 
 end stencil
 
+
+/-! ### Simpson rule with the abscissa-dependent factors computed once
+
+`scipy.integrate.simpson(y, x=x)` spends most of its arithmetic on factors that
+depend on `x` only.  `SimpPlan` stores them per parabolic segment; `SimpPlan.eval`
+then performs exactly the remaining operations of `simpsonTerm` / `simpson`
+(`SnowModel/Simpson.lean`), in the same order, so the `Float` results are bitwise
+the same (checked by the driver op `simpsonPlan` against `simpson`, exactly at `Rat`). -/
+section plan
+variable {α : Type} [Num α]
+
+structure SimpPlan (α : Type) where
+  N : Nat
+  pre : Array α
+  c0 : Array α
+  c1 : Array α
+  c2 : Array α
+  alpha : α
+  beta : α
+  eta : α
+  half : α
+
+def mkPlan (x : Array α) : SimpPlan α :=
+  let N := x.size
+  let m := if N % 2 == 0 then (N - 2) / 2 else (N - 1) / 2
+  let h0 (k : Nat) : α := aget x (2 * k + 1) - aget x (2 * k)
+  let h1 (k : Nat) : α := aget x (2 * k + 2) - aget x (2 * k + 1)
+  let H0 := aget x (N - 2) - aget x (N - 3)
+  let H1 := aget x (N - 1) - aget x (N - 2)
+  { N := N,
+    pre := Array.ofFn (n := m) fun k => (h0 k.val + h1 k.val) / ofNat' 6,
+    c0 := Array.ofFn (n := m) fun k => ofNat' 2 - divOr0 one (divOr0 (h0 k.val) (h1 k.val)),
+    c1 := Array.ofFn (n := m) fun k =>
+      (h0 k.val + h1 k.val) * divOr0 (h0 k.val + h1 k.val) (h0 k.val * h1 k.val),
+    c2 := Array.ofFn (n := m) fun k => ofNat' 2 - divOr0 (h0 k.val) (h1 k.val),
+    alpha := divOr0 (ofNat' 2 * (H1 * H1) + ofNat' 3 * H0 * H1) (ofNat' 6 * (H1 + H0)),
+    beta := divOr0 (H1 * H1 + ofNat' 3 * H0 * H1) (ofNat' 6 * H0),
+    eta := divOr0 (one * (H1 * H1 * H1)) (ofNat' 6 * H0 * (H0 + H1)),
+    half := lit 5 1 * (aget x 1 - aget x 0) }
+
+/-- one parabolic segment (cf. `simpsonTerm`) -/
+@[inline] def SimpPlan.term (pl : SimpPlan α) (y : Nat → α) (k : Nat) : α :=
+  aget pl.pre k *
+    (y (2 * k) * aget pl.c0 k + y (2 * k + 1) * aget pl.c1 k + y (2 * k + 2) * aget pl.c2 k)
+
+/-- `simpson y x` for the abscissae the plan was made from; `y` is a reader -/
+@[inline] def SimpPlan.eval (pl : SimpPlan α) (y : Nat → α) : α :=
+  let N := pl.N
+  if N % 2 == 0 then
+    if N == 2 then pl.half * (y 1 + y 0)
+    else if N == 0 then zero
+    else
+      ((List.range ((N - 2) / 2)).foldl (fun acc k => acc + pl.term y k) zero)
+        + pl.alpha * y (N - 1) + pl.beta * y (N - 2) - pl.eta * y (N - 3)
+  else (List.range ((N - 1) / 2)).foldl (fun acc k => acc + pl.term y k) zero
+
+end plan
+
 /-! ### derived constants -/
 section derived
 variable {α : Type} [Num α]
@@ -210,19 +272,24 @@ structure Ctx (α : Type) where
   dt : α
   k0 : α
   a0 : α          -- alpha*dt of the cooling stage
+  l1 : α          -- the literals 1, 2, 4 (evaluated once)
+  l2 : α
+  l4 : α
   Tm : α
   TeqL : α
   Kw : α
   eSp : α
-  z : List α
-  r : List α
+  zA : Array α
   rA : Array α
+  zPlan : SimpPlan α
+  rPlan : SimpPlan α
   regs : List (List (Nat × Nat))
 
 def mkCtx (p : Par α) (f : Flags) : Ctx α :=
   { p := p, f := f, Nz := p.Nz, Nr := p.Nr, dz := dz p, dr := dr p, dt := dt p,
-    k0 := kEff0 p, a0 := alpha0 p * dt p, Tm := Tm p, TeqL := TeqL p,
-    Kw := Kwall p, eSp := edgeSpacing p f, z := zs p, r := rs p, rA := (rs p).toArray,
+    k0 := kEff0 p, a0 := alpha0 p * dt p, l1 := ofNat' 1, l2 := ofNat' 2, l4 := ofNat' 4, Tm := Tm p, TeqL := TeqL p,
+    Kw := Kwall p, eSp := edgeSpacing p f, zA := (zs p).toArray, rA := (rs p).toArray,
+    zPlan := mkPlan (zs p).toArray, rPlan := mkPlan (rs p).toArray,
     regs := regions p.Nz p.Nr }
 
 /-- jacket flux at the wall node of row `i` (0 unless the configuration is `jacket`) -/
@@ -245,7 +312,7 @@ def coolStep (c : Ctx α) (inplace : Bool) (Tsh : α) (qe : Nat → α) (T : Arr
     let t := rd Nr T i.val (Nr - 1)
     t + qJacket c Tsh t * c.eSp / c.k0
   sweep Nz Nr inplace
-    (fun R i j => coolNode Nz Nr c.a0 c.dz c.dr (rd1 c.rA) R (rd1 TbA) (rd1 TtA) (rd1 TeA) i j) T
+    (fun R i j => coolNode Nz Nr c.a0 c.dz c.dr (rd1 c.rA) R (rd1 TbA) (rd1 TtA) (rd1 TeA) i j c.l2 c.l1) T
 
 /-- fields `cp_eff`, `k_eff`, `BETA` of a solidification step -/
 def cpEff (p : Par α) (w : α) : α :=
@@ -276,7 +343,7 @@ def solidStep (c : Ctx α) (inplace : Bool) (Tsh : α) (qe : Nat → α)
     t + qJacket c Tsh t * c.eSp / rd Nr kA i.val (Nr - 1)
   sweep Nz Nr inplace
     (fun R i j => solidNode Nz Nr c.dt c.p.rho_l c.dz c.dr (rd1 c.rA)
-      (rd Nr kA) (rd Nr cpA) (rd Nr BA) R (rd1 TbA) (rd1 TtA) (rd1 TeA) i j) T
+      (rd Nr kA) (rd Nr cpA) (rd Nr BA) R (rd1 TbA) (rd1 TtA) (rd1 TeA) i j c.l2 c.l4 c.l1) T
 
 /-- supercooling mask `T < T_eq_l` -/
 def maskOf (c : Ctx α) (T : Array α) : Array Bool := T.map fun t => decide (t < c.TeqL)
@@ -295,21 +362,18 @@ def maxA (A : Array α) : α := A.foldl (fun m x => Num.max m x) (rd1 A 0)
 def sumA (A : Array α) : α := A.foldl (· + ·) zero
 def meanA (A : Array α) : α := sumA A / ofNat' A.size
 
-/-- row `i` of a flat field as a list -/
-def rowL (Nr : Nat) (A : Array α) (i : Nat) : List α :=
-  (List.range Nr).map fun j => rd Nr A i j
-
 /-- `simps(2π · simps(r·F, r), z)`-style volume integral of a nodal field:
 `K_r = 2π simps(r*F, r)` per row, then `simps(K_r, z)` -/
 def volIntegral (c : Ctx α) (F : Array α) : α :=
-  let Kr := (List.range c.Nz).map fun i =>
-    (two * c.p.pi) * simpson (List.zipWith (· * ·) c.r (rowL c.Nr F i)) c.r
-  simpson Kr c.z
+  let tp := two * c.p.pi
+  let Kr : Array α := Array.ofFn (n := c.Nz) fun i =>
+    tp * c.rPlan.eval fun j => rd1 c.rA j * rd c.Nr F i.val j
+  c.zPlan.eval (rd1 Kr)
 
 /-- `sigma_new` (l.1740-1744) -/
 def sigmaOf (c : Ctx α) (w : Array α) : α :=
-  let rl := c.r.getLastD zero
-  let zl := c.z.getLastD zero
+  let rl := rd1 c.rA (c.Nr - 1)
+  let zl := rd1 c.zA (c.Nz - 1)
   (one / (c.p.pi * (rl * rl) * zl)) * volIntegral c w * c.p.mass / (c.p.mass - c.p.mass_solute)
 
 /-! ### nucleation (masked quadratic, l.1375-1414) -/
@@ -459,12 +523,11 @@ def run (p : Par α) (f : Flags) (T0C : α) (profileC : List α) (NtExp : Nat) (
   | none => .error "ValueError"
   | some co =>
     let Tnuc := co.T
-    let fz := (Array.range n).map fun x =>
-      (c.rA.getD (x % c.Nr) zero * rd1 Tnuc x) * rd1 co.J x
     -- `f_z = 2π simps(r*T_nuc*J, r)`, then `(1/K_v) simps(f_z, z)`
     let kinInt :=
-      let Kr := (List.range c.Nz).map fun i => (two * p.pi) * simpson (rowL c.Nr fz i) c.r
-      simpson Kr c.z
+      let Kr : Array α := Array.ofFn (n := c.Nz) fun i =>
+        (two * p.pi) * c.rPlan.eval fun j => (rd1 c.rA j * rd c.Nr Tnuc i.val j) * rd c.Nr co.J i.val j
+      c.zPlan.eval (rd1 Kr)
     let Tkin := if zero < co.Kv then (one / co.Kv) * kinInt else kelvin
     let tNuc := c.dt * ofNat' co.iEnd
     let after := Tnuc.map (nucNode c)
